@@ -9,7 +9,7 @@ THEOREMS = [
     "C28_commit_symlink_refuted", "C28_commit_files",
     "C28_rm_file_eq", "C28_rm_dir_missing_refuted", "C28_rm_untracked_dir_refuted",
     "C28_rm_below_file_refuted", "C28_rm_deleted_dir_refuted",
-    "C28_mv_eq_partial", "C28_mv_stat_refuted", "C28_mv_mkdir_refuted",
+    "C28_mv_eq_partial", "C28_mv_replaces_tracked_dest", "C28_mv_stat_refuted", "C28_mv_mkdir_refuted",
     "C28_clean_d_eq_partial", "C28_clean_subdir_refuted",
     "C28_clean_ignored_dir_refuted", "C28_add_below_tracked_file_refuted",
     "C28_add_ignored_refuted", "C28_add_filemode_refuted", "C28_add_replaced_dir_refuted",
@@ -23,7 +23,8 @@ MODEL_FILES = ["Status.v", "IndexOps.v", "CommitHead.v", "WriteTree.v", "TreeObj
 MODELLED = ("worktree_status.go doAdd / doAddDirectory / doAddFile (file, directory, All), AddGlob (go-billy util.Glob component by "
             "component, filepath.Match restricted to literals, '*' and '?'), doUpdateFileToIndex (mode, size, mtime from the file), "
             "Remove / doRemoveDirectory / doRemoveFile, RemoveGlob (index.Glob's whole-name match, doRemoveFile, "
-            "removeEmptyDirectory incl. its failure on a missing directory), Move; worktree.go Clean / doClean; "
+            "removeEmptyDirectory incl. its failure on a missing directory), Move (incl. a destination that is still an index entry: "
+            "addOrUpdateFileToIndex replaces it); worktree.go Clean / doClean; "
             "worktree_commit.go Commit: CommitOptions.Validate (parents default to HEAD), Amend, both empty-commit tests, "
             "updateHEAD (Model/CommitHead.v); buildTreeHelper.BuildTree (commitIndexEntry, doBuildTree with the never-written "
             "h.entries, zero-hash skip) and copyTreeToStorageRecursive (per-directory sort by sortName, Tree.Encode with "
@@ -44,6 +45,8 @@ RULE = ("case = flattened (HEAD, index, worktree) state + one operation from {ad
         "rm glob, mv, clean, clean -d, commit (tree listing and tree id), commit on {unborn branch, branch, detached HEAD} x "
         "{plain, amend of a root / of a commit with a parent / of a merge} x {staged change, nothing staged, empty index} x "
         "AllowEmptyCommits x merge in progress} aimed at tracked / untracked / deleted / ignored / replaced-by-directory paths; "
+        "mv also onto a destination that is {tracked and present, tracked and deleted on disk, tracked in HEAD with the deletion staged, "
+        "untracked and present, absent} from a source that is {tracked clean, tracked modified, newly staged}; "
         "non-trivial = the operation changes the index, the worktree or produces a tree; distinct by content")
 
 MODE = {"f": 0, "x": 1, "l": 2}
@@ -337,7 +340,46 @@ class Main(Suite):
                         c["dirs"] = [e for e in c["dirs"] if e.split("/")[0] != top]
             c["bucket"] = kind
             cases.append(c)
+        # mv onto every kind of destination (appended, so the cases above stay what they were)
+        for j in range(15 if tier == "quick" else 60):
+            cases.append(self.gen_mvdst(rng, j))
         return cases
+
+    # destination x source shapes of the mv-dst bucket, enumerated in turn
+    MV_DST = ["deleted", "present", "stagedel", "untracked", "absent"]
+    MV_SRC = ["clean", "modified", "stagednew"]
+
+    def gen_mvdst(self, rng, j):
+        """Move(from, to) where `to` is tracked and present / tracked and deleted on disk (unstaged) / tracked in HEAD
+        with the deletion staged / untracked and present / absent, from a source that is tracked and clean /
+        tracked and modified / newly staged.  Lstat(to) only speaks for the worktree: a destination that is still
+        in the index must have its entry REPLACED (git mv: ADD_CACHE_OK_TO_REPLACE), never doubled."""
+        dk, sk = self.MV_DST[j % 5], self.MV_SRC[(j // 5) % 3]
+        src = rng.choice(["a", "s", "d/e", "v w", "d/g/a"])
+        dst = rng.choice(["b", "d/f", "zz", "a.x", "d/g/h", "c0"])
+        head, index, wt = {}, {}, {}
+        for p in ["c", "d/k"] + (["d/g/k"] if (rng.random() < 0.6 or src.startswith("d/g/") or (dst.startswith("d/g/") and rng.random() < 0.8)) else []) + (["zzz"] if rng.random() < 0.3 else []):
+            v = pg.rcontent(rng)
+            head[p], index[p], wt[p] = ("f", v), ("f", v, ""), ("f", v, "")
+        sm = rng.choice(["f", "f", "f", "x", "l"])
+        sc = b"tgt" if sm == "l" else rng.choice([b"S\n", b"source\n", b"1\n", b""])
+        index[src] = (sm, sc, "")
+        if sk != "stagednew":
+            head[src] = (sm, sc)
+        wt[src] = (sm, (b"moved" if sm == "l" else sc + b"more\n"), "") if sk == "modified" else (sm, sc, "")
+        dm = rng.choice(["f", "f", "x"])
+        dc = rng.choice([b"D\n", b"dest\n", b"2\n", sc if sm != "l" else b"D\n"])
+        if dk in ("deleted", "present", "stagedel") and not (dk == "deleted" and rng.random() < 0.25):
+            head[dst] = (dm, dc)                       # (a quarter of the deleted ones were only ever staged)
+        if dk in ("deleted", "present"):
+            index[dst] = (dm, dc if rng.random() < 0.8 else dc + b"staged\n", "")
+        if dk in ("present", "untracked"):
+            wt[dst] = (dm, dc if rng.random() < 0.7 else b"on disk\n", "")
+        st = {"fmt": "sha1", "filemode": True, "racy": rng.random() < 0.1, "exclude": b"", "dirs": [],
+              "head": head, "index": index, "wt": wt}
+        c = pg.recipe(st)
+        c.update({"op": "mv", "path": src, "to": dst, "bucket": "mv-dst-%s-%s" % (dk, sk)})
+        return c
 
     # HEAD shapes x options of the commithead bucket, enumerated in turn
     HEADS = [("branch", 1), ("branch", 2), ("unborn", 0), ("detached", 1), ("detached", 2), ("branch", 3), ("detached", 3)]
